@@ -34,6 +34,18 @@ struct Ellipsoid {
   }
   // area between equator and latitude phi per unit longitude, as a function of s = sin(phi)
   L Aofs(L s) const { return b * b / 2 * (s / (1 - e2 * s * s) + atanhee(s)); }
+  // G(s) = (A(s) - c2 s)/(1 - s^2), evaluated without cancellation near s = +-1 (the poles):
+  //   s/(1-e2 s^2) - s/(1-e2)            = -s e2 (1-s^2) / ((1-e2 s^2)(1-e2))
+  //   atanhee(s) - s atanhee(1)          = (1-s) atanhee(s) - s Int_s^1 dt/(1-e2 t^2)
+  //   Int_s^1 dt/(1-e2 t^2)              = atanhee(w),  w = (1-s)/(1-e2 s)   (addition theorem)
+  L Gofs(L s) const {
+    L sg = s < 0 ? -1 : 1; s = fabsl(s);
+    L w = (1 - s) / (1 - e2 * s);
+    L q = w != 0 ? atanhee(w) / w : 1;                     // -> 1 as w -> 0
+    L t1 = -s * e2 / ((1 - e2 * s * s) * (1 - e2));
+    L t2 = (atanhee(s) - s * q / (1 - e2 * s)) / (1 + s);
+    return sg * b * b / 2 * (t1 + t2);
+  }
   L area() const { return 4 * PI_L * c2; }
 };
 
@@ -82,7 +94,8 @@ public:
     L zz = y[2] / (1 - E.e2);               // tan(phi) = zz / rho
     L h2 = rho2 + zz * zz;
     L s = zz / sqrtl(h2);                    // sin(phi)
-    if (rho2 > 0) d[10] = (E.Aofs(s) - E.c2 * s) * Lz / rho2; else d[10] = 0;
+    // (A(s) - c2 s) Lz / rho^2 with rho^2 = a^2 (1-s^2)/(1-e2 s^2): regular at the poles
+    d[10] = E.Gofs(s) * Lz * (1 - E.e2 * s * s) * ia2;
     d[11] = 1 / (E.a * sqrtl(1 - E.e2 * rho2 * ia2));
   }
 
@@ -191,6 +204,9 @@ public:
     L h = s12 / n;
     L sphi, cphi, lam, alp;
     geo_of(y, sphi, cphi, lam, alp);
+    // start values of longitude and azimuth from the inputs (at a pole they are not recoverable from the
+    // Cartesian state: the azimuth there is measured against the meridian lon1, by continuity)
+    lam = remainderl(lon1, 360.0L) * DEG_L; alp = remainderl(azi1, 360.0L) * DEG_L;
     L lamU = 0, alpU = 0;   // unrolled changes, radians
     L dir = R.Lz * (s12 >= 0 ? 1 : -1) >= 0 ? 1 : -1;   // sense of longitude motion
     R.rhomin = hypotl(y[0], y[1]);
@@ -200,7 +216,9 @@ public:
       geo_of(y, sphi, cphi, lam, alp);
       R.rhomin = std::min(R.rhomin, hypotl(y[0], y[1]));
       // longitude is monotonic (Clairaut): step change in [-0.5, 2pi-0.5) in the sense of motion
-      L dl = dir * wrap(dir * (lam - lam0), -0.5L);
+      // (exactly meridional lines: Lz = 0, no sense of motion; the only longitude changes are the swing at
+      // a pole start, |dl| < pi, and pole crossings, dl = +-pi with a conventional sign)
+      L dl = R.meridional ? wrap(lam - lam0, -PI_L) : dir * wrap(dir * (lam - lam0), -0.5L);
       lamU += dl;
       // azimuth: d alpha = sin phi d lambda; choose the branch nearest to that estimate
       L est = (sphi0 + sphi) / 2 * dl;
